@@ -113,23 +113,25 @@ theorem decNat_rt (o : Bool) (n : Nat) :
   · have : (n == 0) = false := by simp [h]
     simp [FV.isEmpty, FV.enc, decNat, parseNat_natLit, this]
 
+/-- a zero of either sign is omitted under `omitempty` and read back as `0`; without `omitempty` the literal survives -/
 theorem decF32_rt (o : Bool) (x : Str) :
-    decF32 (if (o && (FV.f32 x).isEmpty) = true then none else some (FV.f32 x).enc) = some x := by
-  by_cases h : x = [48]
-  · subst h; cases o <;> simp [FV.isEmpty, FV.enc, decF32]
-  · have : (x == [48]) = false := by simp [h]
-    simp [FV.isEmpty, FV.enc, decF32, this]
+    decF32 (if (o && (FV.f32 x).isEmpty) = true then none else some (FV.f32 x).enc)
+      = some (if o = true then rotNorm x else x) := by
+  by_cases h : rotIsZero x = true
+  · cases o <;> simp [FV.isEmpty, FV.enc, decF32, rotNorm, h]
+  · cases o <;> simp [FV.isEmpty, FV.enc, decF32, rotNorm, h]
 
-theorem mapM_map_rt {α β : Type} (f : α → β) (g : β → Option α) (h : ∀ a, g (f a) = some a) (l : List α) :
-    (l.map f).mapM g = some l := by
+theorem mapM_map_rt {α β : Type} (f : α → β) (g : β → Option α) (n : α → α) (h : ∀ a, g (f a) = some (n a))
+    (l : List α) : (l.map f).mapM g = some (l.map n) := by
   induction l with
   | nil => rfl
   | cons a r ih => simp [List.mapM_cons, h, ih]
 
 /-- pointer field: the pointee's encoding is an object (never `null`) -/
-theorem decPtr_rt {α : Type} (o : Bool) (enc : α → JVal) (dec : JVal → Option α) (x : Option α)
-    (hrt : ∀ a, dec (enc a) = some a) (hobj : ∀ a, enc a ≠ .null) :
-    decPtr dec (if (o && (FV.ptr (x.map enc)).isEmpty) = true then none else some (FV.ptr (x.map enc)).enc) = some x := by
+theorem decPtr_rt {α : Type} (o : Bool) (enc : α → JVal) (dec : JVal → Option α) (n : α → α) (x : Option α)
+    (hrt : ∀ a, dec (enc a) = some (n a)) (hobj : ∀ a, enc a ≠ .null) :
+    decPtr dec (if (o && (FV.ptr (x.map enc)).isEmpty) = true then none else some (FV.ptr (x.map enc)).enc)
+      = some (x.map n) := by
   cases x with
   | none => cases o <;> simp [FV.isEmpty, FV.enc, decPtr]
   | some a =>
@@ -142,17 +144,17 @@ theorem decPtr_rt {α : Type} (o : Bool) (enc : α → JVal) (dec : JVal → Opt
     | arr l => simp only [decPtr, ← he, hrt, Option.map_some]
     | obj kvs => simp only [decPtr, ← he, hrt, Option.map_some]
 
-theorem decSlice_rt {α : Type} (o isNil : Bool) (enc : α → JVal) (dec : JVal → Option α) (l : List α)
-    (hrt : ∀ a, dec (enc a) = some a) :
+theorem decSlice_rt {α : Type} (o isNil : Bool) (enc : α → JVal) (dec : JVal → Option α) (n : α → α) (l : List α)
+    (hrt : ∀ a, dec (enc a) = some (n a)) :
     decSlice dec (if (o && (FV.slice isNil (l.map enc)).isEmpty) = true then none
-        else some (FV.slice isNil (l.map enc)).enc) = some (l.isEmpty && (o || isNil), l) := by
+        else some (FV.slice isNil (l.map enc)).enc) = some (l.isEmpty && (o || isNil), l.map n) := by
   cases l with
   | nil =>
     cases o <;> cases isNil <;> simp [FV.isEmpty, FV.enc, decSlice]
   | cons a r =>
     simp only [FV.isEmpty, List.map_cons, List.isEmpty_cons, Bool.and_false, Bool.false_eq_true, if_false, FV.enc,
       Bool.false_and]
-    simp only [decSlice, ← List.map_cons, mapM_map_rt enc dec hrt, Option.map_some]
+    simp only [decSlice, ← List.map_cons, mapM_map_rt enc dec n hrt, Option.map_some]
 
 /-! The facts about the regenerated tag table the round trip needs — no data field is skipped (`json:"-"`), the
 keys of one struct are pairwise distinct — are discharged by `decide` on `Gen.topologyTags` where they are used
@@ -173,18 +175,21 @@ theorem disp_rt (d : Disp) : dispOfJ (dispToJ d) = some d := by
 
 theorem disp_obj (d : Disp) : dispToJ d ≠ .null := by unfold dispToJ; exact fun h => by cases h
 
-theorem typeDef_rt (td : TypeDef) : typeDefOfJ (typeDefToJ td) = some td := by
+theorem typeDef_rt (td : TypeDef) : typeDefOfJ (typeDefToJ td) = some td.norm := by
   unfold typeDefToJ typeDefOfJ
-  have hd := fun o x => decPtr_rt o dispToJ dispOfJ x disp_rt disp_obj
-  have hs := fun o n l => decSlice_rt o n subElToJ subElOfJ l subEl_rt
-  simp (disch := decide) only [jget_hit, jget_miss, jget_nil, decStr_rt, decInt_rt, decF32_rt, hd, hs]
+  have hd := fun o x => decPtr_rt o dispToJ dispOfJ id x disp_rt disp_obj
+  have hs := fun o n l => decSlice_rt o n subElToJ subElOfJ id l subEl_rt
+  -- the rotation is `omitempty` in the current table (checked here): both zeros are read back as `0`
+  have hr : (tag "TopologyHWcTypeDef" "Rotate").omitEmpty = true := by decide
+  simp (disch := decide) only [jget_hit, jget_miss, jget_nil, decStr_rt, decInt_rt, decF32_rt, hd, hs, hr, if_true,
+    Option.map_id_fun, id, List.map_id_fun]
   rfl
 
 theorem typeDef_obj (td : TypeDef) : typeDefToJ td ≠ .null := by unfold typeDefToJ; exact fun h => by cases h
 
-theorem hwc_rt (c : HWc) : hwcOfJ (hwcToJ c) = some c := by
+theorem hwc_rt (c : HWc) : hwcOfJ (hwcToJ c) = some c.norm := by
   unfold hwcToJ hwcOfJ
-  have ho := fun o x => decPtr_rt o typeDefToJ typeDefOfJ x typeDef_rt typeDef_obj
+  have ho := fun o x => decPtr_rt o typeDefToJ typeDefOfJ TypeDef.norm x typeDef_rt typeDef_obj
   simp (disch := decide) only [jget_hit, jget_miss, jget_nil, decStr_rt, decInt_rt, decNat_rt, ho]
   rfl
 
@@ -207,13 +212,21 @@ theorem lexSort_perm (l : List (Nat × TypeDef)) : (lexSort l).Perm l := by
 def insertAll (acc : Map TypeDef) (es : List (Nat × TypeDef)) : Map TypeDef :=
   es.foldl (fun a e => Map.insert a e.1 e.2) acc
 
+def normE (e : Nat × TypeDef) : Nat × TypeDef := (e.1, e.2.norm)
+
 theorem mapOfJ_enc (es : List (Nat × TypeDef)) (acc : Map TypeDef) :
-    mapOfJ (es.map (fun e => (natLit e.1, typeDefToJ e.2))) acc = some (insertAll acc es) := by
+    mapOfJ (es.map (fun e => (natLit e.1, typeDefToJ e.2))) acc = some (insertAll acc (es.map normE)) := by
   induction es generalizing acc with
   | nil => rfl
   | cons e r ih =>
     simp only [List.map_cons, mapOfJ, parseNat_natLit, typeDef_rt, Option.bind_eq_bind, Option.bind_some, ih]
     rfl
+
+theorem keys_map_normE (m : Map TypeDef) : Map.keys (m.map normE) = Map.keys m := by
+  simp [Map.keys, List.map_map, Function.comp_def, normE]
+
+theorem sorted_map_normE (m : Map TypeDef) (hs : Map.Sorted m) : Map.Sorted (m.map normE) := by
+  unfold Map.Sorted; rw [keys_map_normE]; exact hs
 
 theorem insertAll_sorted (es : List (Nat × TypeDef)) (acc : Map TypeDef) (h : Map.Sorted acc) :
     Map.Sorted (insertAll acc es) := by
@@ -271,7 +284,7 @@ def WF (t : Topology) : Prop :=
 
 theorem decMap_rt (o isNil : Bool) (m : Map TypeDef) (hs : Map.Sorted m) (hn : isNil = true → m = []) :
     decMap (if (o && (FV.map isNil (typeIndexToJ m)).isEmpty) = true then none
-      else some (FV.map isNil (typeIndexToJ m)).enc) = some (m.isEmpty && (o || isNil), m) := by
+      else some (FV.map isNil (typeIndexToJ m)).enc) = some (m.isEmpty && (o || isNil), m.map normE) := by
   cases m with
   | nil => cases o <;> cases isNil <;> simp [typeIndexToJ, lexSort, decMap, mapOfJ, FV.isEmpty, FV.enc]
   | cons e r =>
@@ -290,13 +303,14 @@ theorem decMap_rt (o isNil : Bool) (m : Map TypeDef) (hs : Map.Sorted m) (hn : i
     | nil => rw [hj] at hne; simp at hne
     | cons a b =>
       rw [← hj]
-      simp only [decMap, typeIndexToJ, mapOfJ_enc, insertAll_perm (e :: r) (lexSort (e :: r)) hs (lexSort_perm _),
-        Option.map_some]
+      simp only [decMap, typeIndexToJ, mapOfJ_enc,
+        insertAll_perm ((e :: r).map normE) ((lexSort (e :: r)).map normE) (sorted_map_normE _ hs)
+          ((lexSort_perm _).map normE), Option.map_some]
 
-theorem topology_rt (t : Topology) (h : WF t) : fromJSON (toJSON t) = some t := by
+theorem topology_rt (t : Topology) (h : WF t) : fromJSON (toJSON t) = some t.norm := by
   obtain ⟨hs, hh, ht⟩ := h
   unfold toJSON fromJSON
-  have hw := fun o n l => decSlice_rt o n hwcToJ hwcOfJ l hwc_rt
+  have hw := fun o n l => decSlice_rt o n hwcToJ hwcOfJ HWc.norm l hwc_rt
   have hm := fun o => decMap_rt o t.tiNil t.ti hs ht
   simp (disch := decide) only [jget_hit, jget_miss, jget_nil, decStr_rt, hw, hm]
   simp only [Option.bind_eq_bind, Option.bind_some, Option.pure_def]
@@ -306,8 +320,8 @@ theorem topology_rt (t : Topology) (h : WF t) : fromJSON (toJSON t) = some t := 
   simp only [o1, o2, Bool.false_or]
   congr 1
   obtain ⟨title, hwc, hwcNil, ti, tiNil⟩ := t
-  simp only [Topology.mk.injEq, true_and, and_true]
-  constructor
+  simp only [Topology.norm, Topology.mk.injEq, true_and]
+  refine ⟨?_, rfl, ?_⟩
   · cases hwc with
     | nil => simp
     | cons a r => cases hwcNil with
@@ -318,5 +332,142 @@ theorem topology_rt (t : Topology) (h : WF t) : fromJSON (toJSON t) = some t := 
     | cons a r => cases tiNil with
       | false => simp
       | true => exact absurd (ht rfl) (by simp)
+
+/-! ## normal form: what survives one round trip; serialisation does not see it -/
+
+theorem rotNorm_idem (x : Str) : rotNorm (rotNorm x) = rotNorm x := by
+  unfold rotNorm
+  by_cases h : rotIsZero x = true
+  · simp only [h, if_true]; rfl
+  · simp only [h, Bool.false_eq_true, if_false]
+
+theorem typeDefToJ_norm (td : TypeDef) : typeDefToJ td.norm = typeDefToJ td := by
+  have hr : (tag "TopologyHWcTypeDef" "Rotate").omitEmpty = true := by decide
+  have hk : (tag "TopologyHWcTypeDef" "Rotate").skip = false := by decide
+  unfold typeDefToJ TypeDef.norm rotNorm
+  by_cases h : rotIsZero td.rotate = true
+  · have h0 : rotIsZero [48] = true := by decide
+    simp only [h, if_true, encodeFields, hr, hk, FV.isEmpty, h0, Bool.and_self, Bool.false_eq_true, if_false]
+  · simp only [h, Bool.false_eq_true, if_false]
+
+theorem hwcToJ_norm (c : HWc) : hwcToJ c.norm = hwcToJ c := by
+  unfold hwcToJ HWc.norm
+  simp only [Option.map_map, Function.comp_def, typeDefToJ_norm]
+
+theorem lexInsert_normE (e : Nat × TypeDef) (l : List (Nat × TypeDef)) :
+    lexInsert (normE e) (l.map normE) = (lexInsert e l).map normE := by
+  induction l with
+  | nil => rfl
+  | cons f r ih =>
+    simp only [List.map_cons, lexInsert]
+    have : (normE e).1 = e.1 ∧ (normE f).1 = f.1 := ⟨rfl, rfl⟩
+    rw [this.1, this.2]
+    split
+    · rfl
+    · simp only [List.map_cons, ih]
+
+theorem lexSort_normE (l : List (Nat × TypeDef)) : lexSort (l.map normE) = (lexSort l).map normE := by
+  induction l with
+  | nil => rfl
+  | cons e r ih => simp only [List.map_cons, lexSort, ih, lexInsert_normE]
+
+/-- serialisation is blind to the normal form: `toJSON t.norm = toJSON t` -/
+theorem toJSON_norm (t : Topology) : toJSON t.norm = toJSON t := by
+  unfold toJSON Topology.norm
+  have h1 : (t.hwc.map HWc.norm).map hwcToJ = t.hwc.map hwcToJ := by
+    simp only [List.map_map, Function.comp_def, hwcToJ_norm]
+  have h2 : typeIndexToJ (t.ti.map (fun e => (e.1, e.2.norm))) = typeIndexToJ t.ti := by
+    have : (fun e : Nat × TypeDef => (e.1, e.2.norm)) = normE := rfl
+    rw [this]
+    unfold typeIndexToJ
+    rw [lexSort_normE]
+    simp only [List.map_map, Function.comp_def, normE, typeDefToJ_norm]
+  simp only [h1, h2]
+
+theorem norm_norm (t : Topology) : t.norm.norm = t.norm := by
+  have htd : ∀ td : TypeDef, td.norm.norm = td.norm := by
+    intro td; simp only [TypeDef.norm, rotNorm_idem]
+  have hc : ∀ c : HWc, c.norm.norm = c.norm := by
+    intro c; cases c with
+    | mk id x y txt type ov p q => cases ov <;> simp [HWc.norm, htd]
+  simp only [Topology.norm, List.map_map, Function.comp_def, hc, htd]
+
+theorem norm_wf (t : Topology) (h : WF t) : WF t.norm := by
+  obtain ⟨hs, hh, ht⟩ := h
+  refine ⟨?_, ?_, ?_⟩
+  · exact sorted_map_normE t.ti hs
+  · intro hn; simp only [Topology.norm] at hn ⊢; rw [hh hn]; rfl
+  · intro hn; simp only [Topology.norm] at hn ⊢; rw [ht hn]; rfl
+
+/-! ## whatever the decoder accepts is well formed -/
+
+theorem mapOfJ_sorted (kvs : List (Str × JVal)) (m m' : Map TypeDef) (hs : Map.Sorted m)
+    (h : mapOfJ kvs m = some m') : Map.Sorted m' := by
+  induction kvs generalizing m with
+  | nil => simp only [mapOfJ, Option.some.injEq] at h; subst h; exact hs
+  | cons kv r ih =>
+    obtain ⟨k, v⟩ := kv
+    simp only [mapOfJ, Option.bind_eq_bind] at h
+    cases hn : parseNat k with
+    | none => simp [hn] at h
+    | some n =>
+      cases ht : typeDefOfJ v with
+      | none => simp [hn, ht] at h
+      | some td =>
+        simp only [hn, ht, Option.bind_some] at h
+        exact ih _ (Map.insert_sorted _ _ _ hs) h
+
+theorem decMap_wf (x : Option JVal) (isNil : Bool) (m : Map TypeDef) (h : decMap x = some (isNil, m)) :
+    Map.Sorted m ∧ (isNil = true → m = []) := by
+  have h0 : Map.Sorted ([] : Map TypeDef) := by simp [Map.Sorted, Map.keys]
+  unfold decMap at h
+  split at h
+  · simp only [Option.some.injEq, Prod.mk.injEq] at h; obtain ⟨_, rfl⟩ := h; exact ⟨h0, fun _ => rfl⟩
+  · simp only [Option.some.injEq, Prod.mk.injEq] at h; obtain ⟨_, rfl⟩ := h; exact ⟨h0, fun _ => rfl⟩
+  · rename_i kvs
+    cases hm : mapOfJ kvs [] with
+    | none => simp [hm] at h
+    | some m0 =>
+      simp only [hm, Option.map_some, Option.some.injEq, Prod.mk.injEq] at h
+      obtain ⟨rfl, rfl⟩ := h
+      exact ⟨mapOfJ_sorted kvs [] m0 h0 hm, fun hf => by cases hf⟩
+  · cases h
+
+theorem decSlice_nil {α : Type} (f : JVal → Option α) (x : Option JVal) (isNil : Bool) (l : List α)
+    (h : decSlice f x = some (isNil, l)) : isNil = true → l = [] := by
+  unfold decSlice at h
+  split at h
+  · simp only [Option.some.injEq, Prod.mk.injEq] at h; obtain ⟨_, rfl⟩ := h; exact fun _ => rfl
+  · simp only [Option.some.injEq, Prod.mk.injEq] at h; obtain ⟨_, rfl⟩ := h; exact fun _ => rfl
+  · rename_i js
+    cases hm : js.mapM f with
+    | none => simp [hm] at h
+    | some l0 =>
+      simp only [hm, Option.map_some, Option.some.injEq, Prod.mk.injEq] at h
+      obtain ⟨rfl, _⟩ := h
+      exact fun hf => by cases hf
+  · cases h
+
+/-- every topology the decoder returns — for any JSON tree, not only the encoder's — is well formed:
+the type index is a finite map (each `m[key] = value` keeps it one) and a nil flag only sits on an empty collection -/
+theorem fromJSON_WF (j : JVal) (t : Topology) (h : fromJSON j = some t) : WF t := by
+  unfold fromJSON at h
+  split at h
+  · rename_i kvs
+    simp only [Option.bind_eq_bind] at h
+    cases h1 : decStr (jget kvs (tag "Topology" "Title").key) with
+    | none => simp [h1] at h
+    | some title =>
+      cases h2 : decSlice hwcOfJ (jget kvs (tag "Topology" "HWc").key) with
+      | none => simp [h1, h2] at h
+      | some hw =>
+        cases h3 : decMap (jget kvs (tag "Topology" "TypeIndex").key) with
+        | none => simp [h1, h2, h3] at h
+        | some ti =>
+          simp only [h1, h2, h3, Option.bind_some, Option.pure_def, Option.some.injEq] at h
+          subst h
+          obtain ⟨a, b⟩ := decMap_wf _ ti.1 ti.2 h3
+          exact ⟨a, decSlice_nil _ _ hw.1 hw.2 h2, b⟩
+  · cases h
 
 end RawPanelVerif.Topo
